@@ -23,7 +23,7 @@ def _fix_defaults(nodes, dparams):
 
 
 def random_flat(rng, *, n_nodes=(2, 5), cyclic=0.35, gate=0.6, multi_out=0.25, side_effect=0.1,
-                defaults=0.3, bound=0.2, emit=0.0, max_iter=8, fn_mix=False, fail=0.0):
+                defaults=0.3, bound=0.2, emit=0.0, max_iter=8, fn_mix=False, fail=0.0, gens=0.0):
     """One random flat program + provided values.  Returns (prog, provided pairs)."""
     nn = rng.randint(*n_nodes)
     outnames = ["a", "b", "c", "d", "e", "f", "g", "h"]
@@ -49,6 +49,8 @@ def random_flat(rng, *, n_nodes=(2, 5), cyclic=0.35, gate=0.6, multi_out=0.25, s
         fn = "term"
         if fn_mix:
             fn = rng.choice(["term", "term", "id", "const"])
+        if gens and len(outs) == 1 and rng.random() < gens:
+            fn = "gen"             # a generator function: its output is the list of the yielded items
         nd = IR.func(nm, ins, outs, fn=fn)
         if fail and rng.random() < fail:
             nd["fail_at"] = [rng.randint(1, 2)]
